@@ -138,7 +138,7 @@ def userlocOp (req : Json) : R Reply := do
 
 /-- op "varmodel": one-axis VariationModel; in = {locs (normalized, the order given to VariationModel), values, at};
     obs = {order, supports, deltas, interp, atMasters} -/
-def varmodel (req : Json) : R Reply := do
+def varmodel1 (req : Json) : R Reply := do
   let i ← field req "in"
   let locs ← asList asRat (← field i "locs")
   let values ← asList asRat (← field i "values")
@@ -155,6 +155,36 @@ def varmodel (req : Json) : R Reply := do
   let oAt ← asList asRat (← field obs "atMasters")
   -- the law, on the implementation's output: interpolating at master i gives master i's value
   return { model, holds := oAt == values }
+
+def asNLoc (j : Json) : R NLoc := asList (asPair asStr asRat) j
+def nlocJ (l : NLoc) : Json := listJ (pairJ Json.str ratJ) l
+def regionJ (r : Region) : Json :=
+  listJ (pairJ Json.str (fun (t : Triple) => Json.arr #[ratJ t.1, ratJ t.2.1, ratJ t.2.2])) r
+
+/-- op "varmodel" with `in.nlocs`: n-axis VariationModel; in = {nlocs (dicts as lists of [axis, value], the order given to
+    VariationModel), axisOrder, values, at}; obs = {err} or {order, supports, reverseMapping, deltas, interp, atMasters} -/
+def varmodelN (req : Json) : R Reply := do
+  let i ← field req "in"
+  let locs ← asList asNLoc (← field i "nlocs")
+  let axisOrder ← asList asStr (← field i "axisOrder")
+  let values ← asList asRat (← field i "values")
+  let ats ← asList asNLoc (← field i "at")
+  let obs ← field req "obs"
+  let hyp := Json.bool (decide (wfInput locs) && values.length == locs.length)
+  match variationModel axisOrder locs with
+  | .error e => return { model := Json.mkObj [("err", Json.str e)], holds := true, hyp }
+  | .ok m =>
+    let model := Json.mkObj [("order", listJ nlocJ m.locations), ("supports", listJ regionJ m.supports),
+      ("reverseMapping", listJ natJ m.reverseMapping), ("deltas", listJ ratJ (m.getDeltas values)),
+      ("interp", listJ ratJ (ats.map (fun x => m.interpolateFromMasters x values))),
+      ("atMasters", listJ ratJ (locs.map (fun x => m.interpolateFromMasters x values)))]
+    match obs.getObjVal? "err" with
+    | .ok _ => return { model, holds := true, hyp }
+    | .error _ =>
+      let oAt ← asList asRat (← field obs "atMasters")
+      let tol ← asRat (← field i "tol")
+      -- the law, on the implementation's output: interpolating at master i gives master i's value (exactly when tol = 0)
+      return { model, holds := holdsReproduce values oAt tol, hyp }
 
 def asAnchors (j : Json) : R (List (String × List (String × Q × Q))) :=
   asList (asPair asStr (asList (fun a => do
@@ -244,7 +274,10 @@ def handle (op : String) (req : Json) : R Reply :=
   | "compat" => compat req
   | "compatpath" => compatpath req
   | "userloc" => userlocOp req
-  | "varmodel" => varmodel req
+  | "varmodel" => do
+    match (← field req "in").getObjVal? "nlocs" with
+    | .ok _ => varmodelN req
+    | .error _ => varmodel1 req
   | "master" => master req
   | _ => throw s!"C10: unknown op {op}"
 
